@@ -609,7 +609,7 @@ func Run(cfg fw.Config, rec *fw.Rec) {
 	rec.Rule = "sio timers through a real Crew whose input channel the harness owns (the harness plays the crew loop; results are serialised by a consumer goroutine as Stdio does): scenarios of 4-18 steps over ids {x,y}: make (2-16 ms, or 10 s), cancel, receive for a while, stop receiving so that due timers block inside the emitter and then cancel / re-create the blocked id, quiesce; per timer: fired at most once, not before clock-before-request + delay, not after an acknowledged cancel that preceded its due time; at quiescent points the reported timers state (after a flush message) and the live machine state must equal accepted - fired - cancelled ('accepted' = reported pending right after the request); restart: timers persisted as JSON resume on a new crew, fire exactly once there and never on the old crew; under -race; non-trivial = scenario in which a timer fired; distinct by scenario"
 	rec.Required = []string{"fired", "accepted", "cancelled", "quiescent_points_compared", "phases_with_blocked_firing", "make_while_a_firing_is_blocked", "restart_scenarios", "timers_resumed_after_restart", "resumed_timer_cancelled_after_restart"}
 	rec.Assume = []string{"a cancel acknowledged after the timer's due time overlaps its firing (the goroutine may already be blocked in the emitter): either outcome accepted", "requests the timers machine does not accept (duplicate pending id; requests after a failed cancel) are counted, not judged", "bounded progress: 30 s"}
-	n := cfg.Pick(150, 2000)
+	n := cfg.Pick(150, 5000)
 	fw.Parallel(6, n, func(w, i int) { scenario(cfg, rec, i) })
 	for i := 0; i < cfg.Pick(15, 150); i++ {
 		restart(cfg, rec, i)
